@@ -12,53 +12,67 @@ import (
 	"strings"
 	"time"
 
-	"github.com/shopspring/decimal"
 	"google.golang.org/protobuf/proto"
 	"google.golang.org/protobuf/reflect/protoreflect"
 )
 
 // ---- canonical bytes of an enc result (PROTOCOL section 6): members of map-typed objects sorted
 
-func canonEncBytes(ts *typeSet, root *sRoot, out []byte) []byte {
+func canonEncBytes(ts *typeSet, root *sRoot, out []byte, m protoreflect.Message) []byte {
 	doc, err := parseStrict(out)
 	if err != nil {
 		return out
 	}
-	if !canonObj(root, doc) {
+	if !canonObj(ts, root, doc, m) {
 		return out
 	}
 	return doc.bytes()
 }
 
-func canonObj(root *sRoot, v *jval) bool {
+// canonObj sorts the members of map-typed objects. m is the message the object was encoded from
+// (needed to tell a verbatim j5_json Any value, which is left untouched, from a value the encoder
+// produced by re-encoding the Any's proto bytes, which is canonicalised recursively).
+func canonObj(ts *typeSet, root *sRoot, v *jval, m protoreflect.Message) bool {
 	if v.kind != jObj || root.broken {
 		return false
 	}
-	for _, m := range v.members {
-		if root.isOneof && m.key == "!type" {
+	for _, mem := range v.members {
+		if root.isOneof && mem.key == "!type" {
 			continue
 		}
-		p := root.prop(m.key)
+		p := root.prop(mem.key)
 		if p == nil {
 			return false
 		}
-		if !canonField(p.field, m.val) {
+		var pv protoreflect.Value
+		if len(p.path) == 0 {
+			if !canonObj(ts, p.field.ref(), mem.val, m) {
+				return false
+			}
+			continue
+		}
+		holder, fd, has := readPath(m, p.path)
+		if !has {
+			return false
+		}
+		pv = holder.Get(fd)
+		if !canonField(ts, p.field, mem.val, pv) {
 			return false
 		}
 	}
 	return true
 }
 
-func canonField(f *sField, v *jval) bool {
+func canonField(ts *typeSet, f *sField, v *jval, pv protoreflect.Value) bool {
 	switch f.kind {
 	case "object", "oneof":
-		return canonObj(f.ref(), v)
+		return canonObj(ts, f.ref(), v, pv.Message())
 	case "array":
-		if v.kind != jArr {
+		if v.kind != jArr || v.elems == nil && pv.List().Len() != 0 || len(v.elems) != pv.List().Len() {
 			return false
 		}
-		for _, e := range v.elems {
-			if !canonField(f.item, e) {
+		for i, e := range v.elems {
+			if !canonField(ts, f.item, e, pv.List().Get(i)) {
 				return false
 			}
 		}
@@ -67,11 +81,37 @@ func canonField(f *sField, v *jval) bool {
 			return false
 		}
 		v.sortMembers()
-		for _, m := range v.members {
-			if !canonField(f.item, m.val) {
+		for _, mem := range v.members {
+			k := protoreflect.ValueOfString(mem.key).MapKey()
+			if !pv.Map().Has(k) {
+				return false
+			}
+			if !canonField(ts, f.item, mem.val, pv.Map().Get(k)) {
 				return false
 			}
 		}
+	case "anyj5", "anypb":
+		am := pv.Message()
+		var tn string
+		var pbytes []byte
+		if f.kind == "anyj5" {
+			if len(getBytes(am, "j5_json")) > 0 {
+				return true // verbatim
+			}
+			tn, pbytes = getStr(am, "type_name"), getBytes(am, "proto")
+		} else {
+			tn, pbytes = strings.TrimPrefix(getStr(am, "type_url"), anyPrefix), getBytes(am, "value")
+		}
+		md, ok := ts.byProto[protoreflect.FullName(tn)]
+		val := v.get("value")
+		if !ok || val == nil {
+			return false
+		}
+		im := ts.newMessage(md)
+		if err := proto.Unmarshal(pbytes, im.Interface()); err != nil {
+			return false
+		}
+		return canonObj(ts, ts.rootOf(md), val, im)
 	}
 	return true
 }
@@ -271,8 +311,8 @@ func (w *wireChecker) field(f *sField, v *jval, pv protoreflect.Value, path stri
 			bad("expected a quoted string, got %s", v.raw)
 			return
 		}
-		want, err1 := decimal.NewFromString(getStr(pv.Message(), "value"))
-		got, err2 := decimal.NewFromString(v.str)
+		want, err1 := safeDecimal(getStr(pv.Message(), "value"))
+		got, err2 := safeDecimal(v.str)
 		if err1 != nil || err2 != nil || !want.Equal(got) {
 			bad("%s does not denote %q", v.raw, getStr(pv.Message(), "value"))
 		}
